@@ -6,8 +6,9 @@ use serde::{Deserialize, Serialize};
 use std::collections::BTreeMap;
 use std::net::{IpAddr, Ipv4Addr, Ipv6Addr};
 use wirefilter::{
-    AlwaysList, Array, ComparisonOpExpr, ConcatFunction, ExecutionContext, FieldIndex, FunctionArgs,
-    FunctionCallArgExpr, GetType, IdentifierExpr, IndexExpr, IpRange, ExplicitIpRange, LhsValue,
+    AlwaysList, Array, ComparisonOpExpr, CompiledFunction, ConcatFunction, ExecutionContext, FieldIndex,
+    FunctionArgs, FunctionCallArgExpr, FunctionDefinition, FunctionDefinitionContext, FunctionParam,
+    FunctionParamError, GetType, IdentifierExpr, IndexExpr, IpRange, ExplicitIpRange, LhsValue,
     ListDefinition, ListMatcher, LogicalExpr, LogicalOp, Map, NeverList, OrderingOp, QuantifierArgExpr,
     QuantifierOp, RhsValue, RhsValues, Scheme, SchemeBuilder, SimpleFunctionArgKind,
     SimpleFunctionDefinition, SimpleFunctionImpl, SimpleFunctionOptParam, SimpleFunctionParam, Type,
@@ -230,6 +231,105 @@ fn boom<'a>(args: FunctionArgs<'_, 'a>) -> Option<LhsValue<'a>> {
     }
 }
 
+// A function definition with a per-call context (C03): the context created by
+// `context()` is filled while the arguments are checked - through a different
+// accessor for each argument position - read back in `return_type` and
+// consumed by `compile`.  The compiled function returns a description of what
+// reached it, followed by the first argument: `tally:0=Bytes;1=Int|<arg0>`.
+#[derive(Debug, Clone, Default, PartialEq)]
+struct Tally {
+    seen: Vec<String>,
+}
+
+#[derive(Debug)]
+struct TallyFunction {
+    inner: SimpleFunctionDefinition,
+}
+
+impl FunctionDefinition for TallyFunction {
+    fn context(&self) -> Option<FunctionDefinitionContext> {
+        Some(FunctionDefinitionContext::new(Tally::default()))
+    }
+
+    fn check_param(
+        &self,
+        settings: &wirefilter::ParserSettings,
+        params: &mut dyn ExactSizeIterator<Item = FunctionParam<'_>>,
+        next_param: &FunctionParam<'_>,
+        ctx: Option<&mut FunctionDefinitionContext>,
+    ) -> Result<(), FunctionParamError> {
+        let index = params.len();
+        self.inner.check_param(settings, params, next_param, None)?;
+        let ctx = ctx.expect("tally: check_param received no context");
+        let rec = format!("{}={:?}", index, next_param.get_type());
+        // the object must be reachable through every mutable accessor
+        let slot: Option<&mut Tally> = if index % 2 == 0 {
+            ctx.downcast_mut::<Tally>()
+        } else {
+            ctx.as_any_mut().downcast_mut::<Tally>()
+        };
+        if let Some(t) = slot {
+            t.seen.push(rec);
+        }
+        Ok(())
+    }
+
+    fn return_type(
+        &self,
+        params: &mut dyn ExactSizeIterator<Item = FunctionParam<'_>>,
+        ctx: Option<&FunctionDefinitionContext>,
+    ) -> Type {
+        // ... and through every shared accessor, holding one record per checked argument
+        let n = params.len();
+        let c = ctx.expect("tally: return_type received no context");
+        let a = c.downcast_ref::<Tally>().map(|t| t.seen.len());
+        let b = c.as_any_ref().downcast_ref::<Tally>().map(|t| t.seen.len());
+        assert_eq!(a, Some(n), "tally: context seen through downcast_ref");
+        assert_eq!(b, Some(n), "tally: context seen through as_any_ref");
+        Type::Bytes
+    }
+
+    fn arg_count(&self) -> (usize, Option<usize>) {
+        self.inner.arg_count()
+    }
+
+    fn compile(
+        &self,
+        params: &mut dyn ExactSizeIterator<Item = FunctionParam<'_>>,
+        ctx: Option<FunctionDefinitionContext>,
+    ) -> CompiledFunction {
+        let n = params.len();
+        let ctx = ctx.expect("tally: compile received no context");
+        // by-value accessors, alternating with the call's argument count
+        let desc = {
+            let cloned = ctx.clone();
+            let t: Option<Box<Tally>> = if n % 2 == 0 {
+                ctx.downcast::<Tally>().ok()
+            } else {
+                ctx.into_any().downcast::<Tally>().ok()
+            };
+            let via_clone = cloned.into_any().downcast::<Tally>().ok().map(|t| t.seen.join(";"));
+            match t {
+                Some(t) if Some(t.seen.join(";")) == via_clone => t.seen.join(";"),
+                Some(_) => "clone-differs".to_string(),
+                None => "lost".to_string(),
+            }
+        };
+        Box::new(move |args| {
+            let first = args.next();
+            for _ in args {}
+            match first {
+                Some(Ok(LhsValue::Bytes(a))) => {
+                    let mut v = format!("tally:{}|", desc).into_bytes();
+                    v.extend_from_slice(&a);
+                    Some(LhsValue::Bytes(v.into()))
+                }
+                _ => None,
+            }
+        })
+    }
+}
+
 fn simple(
     params: Vec<(SimpleFunctionArgKind, Type)>,
     opts: Vec<(SimpleFunctionArgKind, LhsValue<'static>)>,
@@ -283,6 +383,12 @@ pub fn add_lib_fn(b: &mut SchemeBuilder, name: &str, lib: &str) -> Option<()> {
             simple(vec![(Field, Type::Bytes), (Both, Type::Bytes)], vec![], Type::Bytes, join2),
         ),
         "boom" => b.add_function(name, simple(vec![(Field, Type::Bytes)], vec![], Type::Bytes, boom)),
+        "tally" => b.add_function(
+            name,
+            TallyFunction {
+                inner: simple(vec![(Field, Type::Bytes), (Both, Type::Int)], vec![], Type::Bytes, first_ok),
+            },
+        ),
         "concat" => b.add_function(name, ConcatFunction::new()),
         _ => return None,
     };
